@@ -335,12 +335,15 @@ def isDescendant (dir test : Bytes) : Bool :=
     rel.length > 0 && rel != [46] && rel != [46, 46] && !hasPrefix rel [46, 46, 47]
   else false
 
-/-! ### mount-table queries used by package manage (after fix 8d11829) -/
+/-! ### mount-table queries used by package manage (after fixes 8d11829, 05db66c) -/
 
 def getMountAndSubmounts (m : Mounts) (path : Bytes) : List MountType :=
   let pre := path ++ [47]
   let l := m.list.filter fun x => x.mountpoint == path || hasPrefix x.mountpoint pre
-  sortBy (fun a b => bytesLt a.mountpoint b.mountpoint) l
+  -- sort.Stable: mounts on one mountpoint stay in table order (the insertion sort `sortBy`
+  -- puts an element behind the equal ones that followed it, hence the reversal)
+  let sorted := sortBy (fun a b => bytesLt a.mountpoint b.mountpoint) l.reverse
+  if hasCoveredMount sorted then inTreeOrder sorted else sorted
 
 /-! ### probe.go -/
 
